@@ -515,8 +515,8 @@ func run(c *engine.Ctx) {
 	}
 	// names of every class an NCName may have, and names that are also operator, function or
 	// node-type names, as step, as key and behind a prefix
-	for _, nm := range []string{"a.b", "a-b", "_a", "a_", "A", "Ab1", "\u00e9", "a\u00e9", "x.y-z_0", "\u65e5\u672c", "div", "and", "or", "mod", "text", "node", "comment", "current", "deref", "string", "true", "not", "k"} {
-		for _, f := range []string{"/%s", "../%s/a", "a/%s", "/a[%s = 'v']/b", "p:%s", "/a/%s[k = 'v']", "/a/p:%s[k = ../x]/%s", "%s/%s = ../%s", "current()/../%s"} {
+	for _, nm := range []string{"a.b", "a-b", "_a", "a_", "A", "Ab1", "\u00e9", "a\u00e9", "x.y-z_0", "\u65e5\u672c", "gr\u00f6\u00dfe", "a\u00e9b", "\u65e5x", "x\U0001d11ey", "div", "and", "or", "mod", "text", "node", "comment", "current", "deref", "string", "true", "not", "k"} {
+		for _, f := range []string{"/%s", "../%s/a", "a/%s", "/a[%s = 'v']/b", "p:%s", "/a/%s[k = 'v']", "/a/p:%s[k = ../x]/%s", "%s/%s = ../%s", "current()/../%s", "/a[k = '%s']/b", "/a[k = concat('%s', \"%s\")]/b"} {
 			if c.Expired() {
 				return
 			}
